@@ -19,7 +19,8 @@ def build(profile='dev'):
                     '[dependencies]\nfpdec = { path = "%s" }\n\n[workspace]\n\n'
                     '[profile.release]\noverflow-checks = false\ndebug-assertions = false\nopt-level = 3\n' % REPO)
         lock = os.path.join(REPO, 'Cargo.lock')
-        target = os.path.join(VERIF, '.cache', 'replay-target')
+        import hashlib
+        target = os.path.join(VERIF, '.cache', 'replay-target-' + hashlib.sha1(os.path.abspath(REPO).encode()).hexdigest()[:8])
         env = dict(os.environ)
         env['CARGO_TARGET_DIR'] = target
         env['CARGO_NET_OFFLINE'] = 'true'
